@@ -13,6 +13,7 @@ import XzVerif.Proofs.GoSrcDist
 import XzVerif.Proofs.GoSrcLit
 import XzVerif.Proofs.GoSrcOpEnc
 import XzVerif.Proofs.GoSrcOp2
+import XzVerif.Proofs.GoSrcRing
 /-
   C02 — Everything the xz writer emits is a valid .xz file for other implementations.
 
@@ -342,6 +343,18 @@ theorem C02_source_properties_code :
       (GoSrc.Properties_Code p).toNat = (p.PB.toNat * 5 + p.LP.toNat) * 9 + p.LC.toNat) ∧
     (∀ c : BitVec 8, c.toNat ≤ 224 → GoSrc.Properties_Code (GoSrc.PropertiesForCode c).1 = c) :=
   ⟨GoSrcP.PropertiesForCode_spec, GoSrcP.Properties_Code_spec, GoSrcP.Properties_Code_roundtrip⟩
+
+/-- the encoder dictionary's accessors from the source (`encoderDict.ByteAt` / `Pos` / `Len`, `buffer.Available` / `Cap`)
+    are those of the hand-written ring model (Model/Ring.lean) — the objects of the ring theorems and of the match-finder
+    models; no index panic on a well-formed ring -/
+theorem C02_source_encoder_dictionary (g : GoSrc.T_encoderDict) (m : Ring.EDict) (hb : GoSrcP.BufRel g.buf m.buf)
+    (hh : g.head.toNat = m.head) (hhl : m.head < 2 ^ 62) (dist : BitVec 64) :
+    GoSrc.encoderDict_ByteAt g dist = Go.Res.ok (BitVec.ofNat 8 (m.byteAt dist.toInt.toNat).toNat)
+    ∧ (GoSrc.encoderDict_Pos g).toNat = m.head ∧ (GoSrc.encoderDict_Len g).toNat = m.len
+    ∧ (GoSrc.buffer_Available g.buf).toNat = m.buf.available ∧ (GoSrc.buffer_Cap g.buf).toNat = m.buf.cap :=
+  ⟨(GoSrcP.encoderDict_ByteAt_ring g m hb hh hhl dist).1, (GoSrcP.encoderDict_ByteAt_ring g m hb hh hhl dist).2.1,
+   (GoSrcP.encoderDict_ByteAt_ring g m hb hh hhl dist).2.2, (GoSrcP.buffer_Available_ring g.buf m.buf hb).1,
+   (GoSrcP.buffer_Available_ring g.buf m.buf hb).2⟩
 
 /-- the checked path is the codec's path whenever the limit is not hit (`encPath` of Codec/LzmaDec.lean) -/
 theorem C02_source_checked_path (L : Nat) (t : Tbl) (e : Rc.Enc) (π : Path) (t' : Tbl) (e' : Rc.Enc)
